@@ -43,7 +43,7 @@ func (b *w5FeedBinlog) AppendASAP(onOffset int64, payload []byte) (int64, error)
 	return onOffset, fmt.Errorf("replica: append not allowed")
 }
 func (b *w5FeedBinlog) EngineStatus(status binlog2.EngineStatus) {}
-func (b *w5FeedBinlog) GetStartCmd() (tlbarsic.Start, bool)     { return tlbarsic.Start{}, false }
+func (b *w5FeedBinlog) GetStartCmd() (tlbarsic.Start, bool)      { return tlbarsic.Start{}, false }
 func (b *w5FeedBinlog) RequestShutdown() {
 	select {
 	case <-b.stop:
